@@ -12,6 +12,7 @@ import SshuttleModel.Lemmas.ArgsPins
 import SshuttleModel.Lemmas.ArgsIpport
 import SshuttleModel.Lemmas.ArgsAscii
 import SshuttleModel.Lemmas.ArgsFile
+import SshuttleModel.Lemmas.ArgsV6Sub
 
 namespace Sshuttle.ArgsSpec
 open Sshuttle.Inet Sshuttle.Args
@@ -67,29 +68,74 @@ theorem C16_v6_embedded_orig_false :
     ¬ (parseSubnetportOrig envNone "::ffff:1.2.3.4".toList = .ok [⟨.inet6, "::ffff:1.2.3.4".toList, 128, 0, 0⟩]) := by
   decide +kernel
 
-/-- `_partial`: the general statement "for every `a < 2¹²⁸` and every spelling in `spellV6`
-(full form, every legal `::`, upper/lower case, leading zeros, embedded IPv4; bare, `/w`,
-`[…]:port`, `[…/w]:port`) the result is `(AF_INET6, inet_ntop a, w or 128, ports)`" is **not
-proved**; what is missing is the round trip `pton6 (spellV6 a …) = a` through the
-`inet_pton6` state machine and `count ':' > 1` for all spellings.  Proved here: the documented
-forms on boundary instances — all-zero, loop-back, a leading / inner / trailing `::`, eight
-full groups, upper case with leading zeros, width 0 and 128, bracketed with port and with
-port range, the unbracketed `addr:port-port` form that needs the regular expression to
-back-track, and a width above 128 being the usage error.  The sampled coverage of `spellV6`
-is the correspondence run plus the `ipaddress` oracle. -/
-theorem C16_v6_spellings_partial :
+/-- **glibc's `inet_pton` reads every IPv6 spelling as the address it denotes** (library model):
+for every `Spell6` — all groups written out or one `::` at any position (start, middle, end)
+standing for one or more zero groups, each group 1–4 hex digits with any leading zeros and any
+mix of upper and lower case, optionally the last 32 bits as a dotted quad.  Proved by induction
+over the group list (`pton6_groups`), the three ways a text can end, and the `::` expansion. -/
+theorem C16_v6_pton (sp : Spell6) (h : sp.Valid) : pton6 sp.text = some sp.denotes :=
+  pton6_spell sp h
+
+example : (Spell6.compressed [[⟨15, true⟩, ⟨12, false⟩, ⟨0, false⟩, ⟨0, false⟩]] [] (.quad 0x01020304)).Valid := by
+  refine ⟨?_, ?_, (by decide : (0x01020304 : Nat) < 2 ^ 32), by decide, ?_⟩
+  · intro g hg
+    simp only [List.mem_singleton] at hg
+    subst hg
+    exact ⟨by decide, by decide, by decide⟩
+  · intro g hg; cases hg
+  · intro h; cases h
+
+/-- **Every documented IPv6 subnet argument means its address.**  For every IPv6 spelling (as
+above), bare or in brackets, every width `≤ 128` or none (inside the brackets when there are
+brackets), every port, port range or none after the closing bracket, and whatever the resolver /
+idna oracle would answer: `parse_subnetport` returns exactly one entry — family IPv6, the
+address in glibc's canonical `inet_ntop` text, the given or else maximal width, the given
+port range. -/
+theorem C16_v6_spellings (env : Env) (sp : Spell6) (h : sp.Valid) (w : Option Nat)
+    (hw : ∀ x, w = some x → x ≤ 128) (f : Form6) (hf : f.Valid) :
+    parseSubnetport env (spellSubnet6 sp w f) = .ok [denotes6 sp w f] := by
+  rw [parse_spell6_aux env sp h w f,
+    subnetLoop_single_fam .inet6 w (fun x hx => by have := hw x hx; omega) f.ports (form6_ports_valid f hf)]
+  cases w with
+  | none => simp [denotes6, maxCidr_inet6]
+  | some x => simp [hw x rfl, denotes6, maxCidr_inet6]
+
+example : (Spell6.full (List.replicate 7 [⟨0, false⟩]) (.group [⟨1, false⟩])).Valid ∧
+    (∀ x, some 64 = some x → x ≤ 128) ∧ (Form6.bracketed (.range 8000 9000)).Valid := by
+  refine ⟨⟨?_, ⟨by decide, by decide, by decide⟩, rfl, by decide⟩, ?_, ⟨by decide, by decide⟩⟩
+  · intro g hg
+    simp only [List.mem_replicate] at hg
+    rw [hg.2]
+    exact ⟨by decide, by decide, by decide⟩
+  · intro x hx; injection hx with hx; omega
+
+/-- A width above 128 on an IPv6 literal is a usage error, for every spelling and form. -/
+theorem C16_v6_width_range (env : Env) (sp : Spell6) (h : sp.Valid) (x : Nat) (hx : 128 < x) (hx' : x < 10 ^ 10)
+    (f : Form6) (hf : f.Valid) :
+    parseSubnetport env (spellSubnet6 sp (some x) f) = .error (.fatal .cidrRange) ∧
+    argparseType (parseSubnetport env (spellSubnet6 sp (some x) f)) = .usage := by
+  have hr : parseSubnetport env (spellSubnet6 sp (some x) f) = .error (.fatal .cidrRange) := by
+    rw [parse_spell6_aux env sp h (some x) f,
+      subnetLoop_single_fam .inet6 (some x) (fun y hy => by injection hy with hy; omega) f.ports
+        (form6_ports_valid f hf)]
+    have : ¬ x ≤ 128 := by omega
+    simp [maxCidr_inet6, this]
+  exact ⟨hr, by rw [hr]; rfl⟩
+
+example : (128 : Nat) < 129 ∧ (129 : Nat) < 10 ^ 10 ∧ Form6.bare.Valid := ⟨by decide, by decide, trivial⟩
+
+/-- Boundary instances, among them two forms outside `Spell6`/`Form6` that the code also
+accepts: the unbracketed `addr:port-port` (the regular expression has to back-track) and an
+upper-case address with leading zeros and width. -/
+theorem C16_v6_instances :
     parseSubnetport envNone "::/0".toList = .ok [⟨.inet6, "::".toList, 0, 0, 0⟩] ∧
-    parseSubnetport envNone "::1".toList = .ok [⟨.inet6, "::1".toList, 128, 0, 0⟩] ∧
-    parseSubnetport envNone "fc00::/7".toList = .ok [⟨.inet6, "fc00::".toList, 7, 0, 0⟩] ∧
     parseSubnetport envNone "2A01:7E00:E000:0188::0001/128".toList =
       .ok [⟨.inet6, "2a01:7e00:e000:188::1".toList, 128, 0, 0⟩] ∧
-    parseSubnetport envNone "1:2:3:4:5:6:7:8".toList = .ok [⟨.inet6, "1:2:3:4:5:6:7:8".toList, 128, 0, 0⟩] ∧
     parseSubnetport envNone "1:0:0:2:0:0:0:3".toList = .ok [⟨.inet6, "1:0:0:2::3".toList, 128, 0, 0⟩] ∧
-    parseSubnetport envNone "[1:2::3]:456".toList = .ok [⟨.inet6, "1:2::3".toList, 128, 456, 456⟩] ∧
     parseSubnetport envNone "[1:2::3/64]:8000-9000".toList = .ok [⟨.inet6, "1:2::3".toList, 64, 8000, 9000⟩] ∧
     parseSubnetport envNone "1:2::3:456-500".toList = .ok [⟨.inet6, "1:2::3".toList, 128, 456, 500⟩] ∧
     parseSubnetport envNone "fc00::/129".toList = .error (.fatal .cidrRange) := by
-  refine ⟨?_, ?_, ?_, ?_, ?_, ?_, ?_, ?_, ?_, ?_⟩ <;> decide +kernel
+  refine ⟨?_, ?_, ?_, ?_, ?_, ?_⟩ <;> decide +kernel
 
 /-! ## 1c. Subnet files (`-s`, `-X`: `parse_subnetport_file`) -/
 
